@@ -1,6 +1,6 @@
 (* C11 - Policy matching follows the policy-language semantics. *)
 From Coq Require Import String Permutation.
-Require Import Base Node Selector Glob Policy PolicyProofs.
+Require Import Base Node Selector Glob Policy PolicyProofs Cbor CborProofs SealedBytes CanonProofs EqualityProofs.
 Local Open Scope Z_scope.
 
 (* whenever every selector resolves, matching is the classical reading of the statements *)
@@ -78,3 +78,17 @@ Example C11_nonvacuous :
   ev (SOr [SEq (fld "x" false) (Int 1); SEq (fld "a" false) (Int 1)]) d = RT /\
   resolves (SCmp Ge (fld "a" false) (Int 1)) d /\ eval (SCmp Ge (fld "a" false) (Int 1)) d = true.
 Proof. cbv zeta. repeat split; try (vm_compute; reflexivity). vm_compute. discriminate. Qed.
+
+(* the classical reading of == on maps: the same entries, whatever their order (a Go map given as an argument,
+   a map literal of a policy and their decoded forms list the same entries in different orders); at any depth,
+   on either side: comparing two values is comparing their canonical forms *)
+Theorem C11_equality_ignores_map_entry_order : forall a b, keys_distinct b -> deep_equal (canon a) (canon b) = deep_equal a b.
+Proof. exact deep_equal_ignores_map_order. Qed.
+Print Assumptions C11_equality_ignores_map_entry_order.
+
+Example C11_map_order_example :
+  deep_equal (Map [(lit "id", Int 7); (lit "n", Int 2)]) (Map [(lit "n", Int 2); (lit "id", Int 7)]) = true /\
+  deep_equal (Map [(lit "id", Int 7); (lit "n", Int 2)]) (Map [(lit "n", Int 2); (lit "id", Int 8)]) = false /\
+  deep_equal (Map [(lit "id", Int 7)]) (Map [(lit "n", Int 2); (lit "id", Int 7)]) = false /\
+  deep_equal (List [Int 1; Int 2]) (List [Int 2; Int 1]) = false.
+Proof. repeat split. Qed.
